@@ -109,6 +109,19 @@ def do_fault(kind, reply=None):
         finish(0)
     hdr, payload = reply if reply else (struct.pack("<BBHI", 1, 0x12, 0, 0), b"")
     ver, typ, res, ln = struct.unpack("<BBHI", hdr)
+    if kind.endswith("_then_linger"):
+        # a protocol violation by a co-process that then neither reads nor exits: only the VM can get rid of it
+        base = kind[:-len("_then_linger")]
+        if base == "wrong_version":
+            OUT.write(struct.pack("<BBHI", 7, typ, res, ln) + payload)
+        elif base == "wrong_type":
+            OUT.write(struct.pack("<BBHI", ver, 0x7F, res, ln) + payload)
+        else:
+            OUT.write(b"\xAA" * 11)
+        OUT.flush()
+        import time
+        time.sleep(25)
+        finish(0)
     if kind.startswith("short_header"):
         n = int(kind.split(":")[1])
         OUT.write(hdr[:n]); OUT.flush(); finish(0)
